@@ -163,3 +163,15 @@ package driver
 //@   callsite config.resetTransient element: 0 <= i && i < len(settings.Configs)
 //@   loop 1
 //@     mustcall config.resetTransient each: true when true
+
+// ---- C04: aggregate — the granularity option selects which attributes of a frame survive aggregation (a case table):
+// functions and the empty default keep the function name only; filefunctions name and file; files the file only; lines
+// name, file and line number; addresses everything (and nothing is aggregated when inlined frames are kept); inlined
+// frames are kept unless noinlines is set; the column flag is passed through ----
+//@ func aggregate nosafety
+//@   callsite Profile.Aggregate table: $arg0 == prof && ($arg1 <==> !cfg.NoInlines) && ($arg5 <==> cfg.ShowColumns)
+//@       && ($arg2 <==> (cfg.Granularity == "" || cfg.Granularity == "functions" || cfg.Granularity == "filefunctions" || cfg.Granularity == "lines" || cfg.Granularity == "addresses"))
+//@       && ($arg3 <==> (cfg.Granularity == "files" || cfg.Granularity == "filefunctions" || cfg.Granularity == "lines" || cfg.Granularity == "addresses"))
+//@       && ($arg4 <==> (cfg.Granularity == "lines" || cfg.Granularity == "addresses"))
+//@       && ($arg6 <==> cfg.Granularity == "addresses")
+//@   mustcall Profile.Aggregate always: true when $res0 == nil && !(cfg.Granularity == "addresses" && !cfg.NoInlines)
